@@ -5,7 +5,7 @@ Line protocol of the composed model (system model + queue selection computed by 
 One line = one whole history, as for `C01`:   `SEL <item>;<item>;...`
 Items: those of `C01`, plus
    `queuesB <force 0/1> <statuses>`                       a queue evaluation whose selection the model computes
-   `prB <id> <src> <dst> <stage e|i|f> <orc bits|-> <statuses>`   a pull-request evaluation (selection computed when
+   `prB <id> <src> <dst> <stage e|i|f> <orc bits|-> <statuses> [<no_octopus 0/1>]`   a pull-request evaluation (selection computed when
                                                           the pull request is found already queued)
    statuses: `<pr>:<dest>:<letter>,...` or `-`  — the build status of the tip of `q/w/<pr>/<version of dest>/...`
              S(UCCESSFUL) I(NPROGRESS) N(OTSTARTED) T (STOPPED) F(AILED); a commit nobody reported on is NOTSTARTED
@@ -72,11 +72,12 @@ def parseItem (s : Sys) (ws : List String) : Option (Event × String) :=
     let tbl ← parseStatuses sts
     let b := buildsOf s tbl
     pure (evalQueuesB s b (f == "1"), describe s b (f == "1"))
-  | ["prB", id, src, dst, stage, orc, sts] => do
+  | "prB" :: id :: src :: dst :: stage :: orc :: sts :: opt => do
     let i ← id.toNat?; let d ← parseDest dst; let st ← parseStage stage
     let tbl ← parseStatuses sts
+    let noOct ← (match opt with | [] => some false | [n] => parseOnOff n | _ => none)
     let b := buildsOf s tbl
-    pure (evalPrB s b ⟨i, src, d⟩ st (parseBits orc), describe s b false)
+    pure (evalPrB s b ⟨i, src, d, noOct⟩ st (parseBits orc), describe s b false)
   | _ => (parseEvent ws).map fun ev => (ev, "")
 
 def runItems (s : Sys) : List String → List String → List String
